@@ -59,3 +59,83 @@ Qed.
 (** sort on any array of integers is ascending and stable — no side condition left *)
 Theorem sort_integers_ascending l : forallb is_int_value l = true -> Sorted.StronglySorted (FunProof.le var_cmp) (Functions.stable_sort var_cmp l).
 Proof. intros H. apply sort_numbers_ascending. apply ints_num_ok. exact H. Qed.
+
+(* ---------- integers of the 64-bit ranges convert to finite doubles ---------- *)
+Lemma digits2_bounds p : 2 ^ (Zpos (digits2_pos p) - 1) <= Zpos p < 2 ^ Zpos (digits2_pos p).
+Proof.
+  induction p as [p IH|p IH|]; cbn [digits2_pos]; [| |cbn; lia];
+    rewrite Pos2Z.inj_succ; replace (Z.succ (Zpos (digits2_pos p)) - 1) with (Zpos (digits2_pos p) - 1 + 1) by lia;
+    rewrite Z.pow_add_r by lia; rewrite Z.pow_succ_r by lia; lia.
+Qed.
+
+Lemma Zdigits2_le m k : 0 <= m < 2 ^ k -> 0 <= k -> Zdigits2 m <= k.
+Proof.
+  intros [H0 H1] Hk. destruct m as [|p|p]; cbn [Zdigits2]; [lia| |lia].
+  destruct (digits2_bounds p) as [Hl _]. destruct (Z_lt_le_dec k (Zpos (digits2_pos p))) as [Hlt|]; [|lia]. exfalso.
+  assert (2 ^ k <= 2 ^ (Zpos (digits2_pos p) - 1)) by (apply Z.pow_le_mono_r; lia). lia.
+Qed.
+
+Lemma shr_1_le r : 0 <= shr_m r -> shr_m (shr_1 r) <= shr_m r.
+Proof. destruct r as [m rb sb]. cbn [shr_m]. intros H. unfold shr_1. destruct m as [|p|p]; [cbn; lia|destruct p; cbn [shr_m]; lia|lia]. Qed.
+
+Lemma iter_shr_1_le p : forall r, 0 <= shr_m r -> shr_m (SpecFloat.iter_pos shr_1 p r) <= shr_m r.
+Proof.
+  induction p as [p IH|p IH|]; intros r H; cbn [SpecFloat.iter_pos].
+  - pose proof (shr_1_le r H) as Ha. pose proof (shr_1_nn r H) as Hb. unfold mnn in Hb.
+    pose proof (IH _ Hb) as Hc. pose proof (iter_shr_1_nn p _ Hb) as Hd. unfold mnn in Hd. pose proof (IH _ Hd) as He. lia.
+  - pose proof (IH _ H) as Ha. pose proof (iter_shr_1_nn p _ H) as Hb. unfold mnn in Hb. pose proof (IH _ Hb) as Hc. lia.
+  - apply shr_1_le. exact H.
+Qed.
+
+Lemma shr_fexp_bounds prec emax m e l : 0 <= m ->
+  let r := shr_fexp prec emax m e l in
+  0 <= shr_m (fst r) <= m /\ snd r <= Z.max e (Z.max (Zdigits2 m + e - prec) (3 - emax - prec)).
+Proof.
+  intros H r. subst r. unfold shr_fexp, shr, fexp, emin.
+  assert (Hm : shr_m (shr_record_of_loc m l) = m) by (destruct l as [|[]]; reflexivity).
+  destruct (Z.max (Zdigits2 m + e - prec) (3 - emax - prec) - e) as [|n|n] eqn:En; cbn [fst snd]; rewrite ?Hm; try (split; lia).
+  split; [|lia]. pose proof (iter_shr_1_nn n (shr_record_of_loc m l)) as H1. unfold mnn in H1. rewrite Hm in H1.
+  pose proof (iter_shr_1_le n (shr_record_of_loc m l)) as H2. rewrite Hm in H2. split; [apply H1; exact H|apply H2; exact H].
+Qed.
+
+Lemma rne_le m l : round_nearest_even m l <= m + 1.
+Proof. unfold round_nearest_even. destruct l as [|[]]; try lia. destruct (Z.even m); lia. Qed.
+
+Lemma binary_round_aux_finite sx mx ex lx : 0 <= mx < 2 ^ 64 -> ex <= 0 ->
+  f_is_finite (binary_round_aux prec emax sx mx ex lx) = true.
+Proof.
+  intros [H0 H1] He. unfold binary_round_aux.
+  pose proof (shr_fexp_bounds prec emax mx ex lx H0) as B1. cbv zeta in B1. destruct (shr_fexp prec emax mx ex lx) as [mrs' e']. cbn [fst snd] in B1. destruct B1 as [[B1a B1b] B1c].
+  pose proof (Zdigits2_le mx 64 (conj H0 H1) ltac:(lia)) as D1.
+  set (m2 := round_nearest_even (shr_m mrs') (loc_of_shr_record mrs')).
+  assert (Hm2 : 0 <= m2 < 2 ^ 65). { unfold m2. pose proof (rne_nn (shr_m mrs') (loc_of_shr_record mrs') B1a). pose proof (rne_le (shr_m mrs') (loc_of_shr_record mrs')). change (2 ^ 65) with (2 * 2 ^ 64). lia. }
+  pose proof (shr_fexp_bounds prec emax m2 e' loc_Exact (proj1 Hm2)) as B2. cbv zeta in B2. destruct (shr_fexp prec emax m2 e' loc_Exact) as [mrs'' e'']. cbn [fst snd] in B2. destruct B2 as [[B2a _] B2c].
+  pose proof (Zdigits2_le m2 65 Hm2 ltac:(lia)) as D2.
+  unfold prec, emax in *. destruct (shr_m mrs'') as [|m|m]; [reflexivity| |lia].
+  assert (Zle_bool e'' (1024 - 53) = true) as -> by (apply Z.leb_le; lia). reflexivity.
+Qed.
+
+Lemma shift_pos_val d p : Zpos (shift_pos d p) = Zpos p * 2 ^ Zpos d.
+Proof. rewrite Zpower.shift_pos_correct. rewrite Zpower.Zpower_pos_nat, Zpower.Zpower_nat_Z, positive_nat_Z. lia. Qed.
+
+Lemma binary_round_finite sx p : Zpos p < 2 ^ 64 -> f_is_finite (binary_round prec emax sx p 0) = true.
+Proof.
+  intros Hp. unfold binary_round. destruct (shl_align p 0 (fexp prec emax (Z.pos (digits2_pos p) + 0))) as [mz ez] eqn:Es.
+  apply binary_round_aux_finite; unfold shl_align in Es; destruct (digits2_bounds p) as [Hl Hu].
+  - destruct (fexp prec emax (Z.pos (digits2_pos p) + 0) - 0) as [|d|d] eqn:Ed; injection Es as <- <-; try (split; lia).
+    unfold fexp, emin, prec, emax in Ed. rewrite shift_pos_val.
+    assert (Hd : Zpos (digits2_pos p) + Zpos d = 53) by lia. split; [lia|].
+    apply Z.lt_le_trans with (2 ^ Zpos (digits2_pos p) * 2 ^ Zpos d); [apply Z.mul_lt_mono_pos_r; lia|].
+    rewrite <- Z.pow_add_r by lia. rewrite Hd. apply Z.pow_le_mono_r; lia.
+  - destruct (fexp prec emax (Z.pos (digits2_pos p) + 0) - 0) as [|d|d] eqn:Ed; injection Es as <- <-; try lia.
+    unfold fexp, emin, prec, emax in *. lia.
+Qed.
+
+Theorem f_of_Z_finite z : - 2 ^ 64 < z < 2 ^ 64 -> f_is_finite (f_of_Z z) = true.
+Proof.
+  intros Hz. unfold f_of_Z, binary_normalize. destruct z as [|p|p]; [reflexivity| |]; apply binary_round_finite; lia.
+Qed.
+
+(** the doubles of all unsigned and signed 64-bit integers are finite: the finiteness premises of the ordering theorems hold for them *)
+Theorem int64_as_f64_finite z : - 2 ^ 63 <= z < 2 ^ 64 -> f_is_finite (as_f64 (PosInt z)) = true /\ f_is_finite (as_f64 (NegInt z)) = true.
+Proof. intros H. cbn [as_f64]. assert (- 2 ^ 64 < z < 2 ^ 64) by lia. split; apply f_of_Z_finite; assumption. Qed.
